@@ -386,7 +386,7 @@ def build_msgs(op, want_packets=False, now=None):
     scope = op.get("scope")
     source = ("10.9.9.9", 5353) if scope is None else (("fe80::9" if scope else "2001:db8::9"), 5353)
     for m in op["msgs"]:
-        out = DNSOutgoing(const._FLAGS_QR_QUERY)
+        out = DNSOutgoing(const._FLAGS_QR_QUERY | (const._FLAGS_TC if m.get("tc") else 0))
         check_alphabet([name for name, _, _ in m["qs"]])
         for name, ty, cl in m["qs"]:
             out.add_question(DNSQuestion(name, ty, cl))
@@ -805,11 +805,17 @@ def exec_wire(ops, seed, v6=False):
                 line = msg_line(msgs)
                 svcs = [fields(i) for i in book.values()]
                 start = len(sim.net.log)
-                host.deliver(bytes(packets[0]), src_of(op, op.get("port", 5353)))
+                src = src_of(op, op.get("port", 5353))
+                for n, pk in enumerate(packets):
+                    # a train: every packet but the last carries the TC bit, the listener holds them (400-500 ms) until the last arrives
+                    if n:
+                        await sim.sleep_ms(op.get("train_gap", 50))
+                    host.deliver(bytes(pk), src)
                 await sim.sleep_ms(2600)
                 impl = "wire"
-                q = {"svcs": svcs, "qs": list(msgs[0].questions), "known": list(msgs[0].answers()) if not msgs[0].is_probe() else [], "pkts": grab(start),
-                     "scope": scope_of(op), "ettl": const._DNS_OTHER_TTL, "in_scope": all(x.class_ == 1 for x in msgs[0].questions), "lost": set(lost)}
+                q = {"svcs": svcs, "qs": [x for m in msgs for x in m.questions], "known": [a for m in msgs if not m.is_probe() for a in m.answers()], "pkts": grab(start),
+                     "scope": scope_of(op), "ettl": const._DNS_OTHER_TTL, "in_scope": all(x.class_ == 1 for m in msgs for x in m.questions), "lost": set(lost),
+                     "legacy": src[0] if op.get("port", 5353) != 5353 else None}
             elif k == "QB":
                 # a burst: 2-3 different query datagrams (same questions, different bytes) less than a second apart -- the later ones
                 # find the record multicast in the last second (flood protection: the reply is delayed, not dropped)
@@ -1000,6 +1006,17 @@ def wire_oracle(q, complete=True):
     observed = [(rtuple(a), []) for a in union.values()]
     found = oracle(svcs, qs, known, observed, q["ettl"], qs_sound=qs_sound)
     found = classify_scope(found, svcs, qs, seen, observed, q["ettl"], q.get("scope"), qs_sound=qs_sound)
+    if q.get("legacy"):
+        # a one-shot (legacy) querier listens on its own port: the records it is owed must be in the unicast reply sent to it
+        direct = {}
+        for p in q["pkts"]:
+            if p["dst"] == q["legacy"]:
+                for a in p["answers"]:
+                    direct[rline(a)] = a
+        owed = oracle(svcs, qs, known, [(rtuple(a), []) for a in direct.values()], q["ettl"], qs_sound=qs_sound)
+        found = [x for x in found if not x[0].startswith("C03:missing-answer")] + \
+                [(sig + ":legacy-unicast", what + " -- in the unicast reply to a legacy querier (source port other than 5353)", d)
+                 for sig, what, d in owed if sig.startswith("C03:missing-answer")]
     if not complete:
         found = [x for x in found if not x[0].startswith("C03:missing-answer")]
     if q.get("post"):
@@ -1252,6 +1269,60 @@ def post_queries(rng, live, first_gap):
     return posts
 
 
+def gen_bystander_history(rng):
+    """a reply that holds records of two services is waiting in a queue when ONE of them is updated or unregistered: whatever the call
+    does to the queues (purge the withdrawn records, or -- a tempting repair of D20 -- drop what is queued), the other service's
+    records are owed.  Three services, two of them of one type (one PTR reply group holds both pointers), often on one host; the
+    unregister goes through the registered object, an equal copy, or a copy that leaves `server=` to its default."""
+    ops, live, nid = [], {}, 0
+    base = gen_svc(rng)
+    while len(live) < 3:
+        spec = gen_svc(rng, type_=base["type"] if len(live) < 2 else None)
+        spec["httl"] = rng.choice([120, 4500])
+        spec["ottl"] = rng.choice([4500, 60])
+        if len(live) == 0 and rng.random() < 0.6:
+            spec["server"] = None          # the server name defaults to the instance name
+        elif live and rng.random() < 0.3:
+            o = rng.choice(list(live.values()))
+            spec["server"] = o["server"] if o["server"] else o["name"]
+        if any(x["name"].lower() == spec["name"].lower() for x in live.values()):
+            continue
+        ops.append({"op": "R", "svc": spec, "obj": nid})
+        live[nid] = dict(spec)
+        nid += 1
+    for _ in range(2):
+        if len(live) < 2:
+            break
+        i = 0 if 0 in live and rng.random() < 0.6 else rng.choice(list(live))
+        j = rng.choice([k for k in live if k != i])
+        fx, fy = spec_fields(live[i]), spec_fields(live[j])
+        qs = rng.choice([[[fx["type"], T_PTR, 1], [fy["type"], T_PTR, 1]],
+                         [[fx["name"], T_TXT, 1], [fy["name"], T_TXT, 1]],
+                         [[fx["type"], T_PTR, 1], [fy["name"], T_SRV, 1]],
+                         [[fy["name"], T_ANY, 1], [fx["name"], T_SRV, 1]],
+                         [[fx["name"], T_SRV, 1], [fy["server"], T_A, 1], [fy["type"], T_PTR, 1]]])
+        qs = [list(x) for n, x in enumerate(qs) if x not in qs[:n]]
+        op = {"op": "QC", "query": plain_query(qs), "delay": rng.choice([1, 5, 15, 19])}
+        r = rng.random()
+        if r < 0.4:
+            kind = rng.choice(["port", "text", "ottl"])
+            val = new_value(rng, live[i], kind)
+            live[i][kind] = val
+            op["change"] = [{"op": "M", "obj": i, "mut": [kind, val]}, {"op": "U", "obj": i}]
+        elif r < 0.55:
+            spec = gen_svc(rng, name=live[i]["name"], type_=live[i]["type"])
+            spec["server"] = live[i]["server"]
+            op["change"] = [{"op": "Unew", "svc": spec, "obj": nid}]
+            del live[i]
+            live[nid] = dict(spec)
+            nid += 1
+        else:
+            op["change"] = [{"op": "X", "objs": [i], "copy": rng.random() < 0.65}]
+            del live[i]
+        ops.append(op)
+    return ops
+
+
 def gen_queue_history(rng):
     """the multicast queue across an unregister: two reply groups for service A are queued (a PTR question, a few ms later a TXT / ANY
     question: the second group's random delay usually ends after the first one's, so the timer is re-armed for the first group's
@@ -1347,6 +1418,15 @@ def gen_wire_history(rng):
                                             scope=rng.choice([None, 3, 0])), port=5353))
                 continue
         elif r < 0.91:
+            # a truncated query: the first packet (TC bit) asks, the second one, 10-300 ms later from the same address, lists known answers
+            # and may ask more; the listener answers the assembled train -- every question of every packet, minus every known answer
+            f = spec_fields(live[rng.choice(list(live))])
+            g = spec_fields(live[rng.choice(list(live))])
+            first = {"probe": False, "tc": True, "qs": shaped_questions(f, rng.choice(["ptr", "srv+txt", "any", "ptr+a", "txt"])), "answers": gen_known(rng, [f, g], [], 2)}
+            second = {"probe": False, "qs": shaped_questions(g, rng.choice(["srv", "txt", "a+aaaa"])) if rng.random() < 0.5 else [], "answers": gen_known(rng, [f, g], [], 3)}
+            ops.append({"op": "Q", "ucast": False, "scope": None, "train": True, "train_gap": rng.choice([10, 50, 150, 300]), "msgs": [first, second], "port": 5353})
+            continue
+        elif r < 0.94:
             # async_update_service with a *new* ServiceInfo that has no server= (set_server_if_missing is not called on this path: D26)
             i = rng.choice(list(live))
             spec = dict(gen_svc(rng, name=live[i]["name"], type_=live[i]["type"]), server=None)
@@ -1358,7 +1438,7 @@ def gen_wire_history(rng):
             continue
         ops.append(dict(gen_query(rng, cur_fields(live), fl(past)), port=rng.choice([5353, 5353, 5353, 40000])))
     for o in ops:
-        if o["op"] == "Q":
+        if o["op"] == "Q" and not o.get("train"):
             o["msgs"] = o["msgs"][:1]
             o["msgs"][0]["probe"] = False
             o.pop("pokes", None)
@@ -1834,7 +1914,7 @@ def assess(res, ops, steps, model_line, omodel, olines, label):
 def run(ctx):
     res = C.Result("C03")
     budget = C.Budget(ctx["tier"], 12000, 200000).n
-    wire_budget = C.Budget(ctx["tier"], 25, 400).n
+    wire_budget = C.Budget(ctx["tier"], 36, 400).n
     if ctx["widened"]:
         budget *= 4
         wire_budget *= 2
@@ -1889,7 +1969,8 @@ def run(ctx):
             runs.append((ops, seed, v6, steps, errors))
         for w in range(2 * wire_budget):
             wr = C.rng_for(ctx["seed"], "c03-wire", w)
-            ops = gen_wire_history(wr) if w % 2 == 0 else (gen_queue_history(wr) if w % 4 == 3 else gen_change_history(wr))
+            ops = (gen_wire_history(wr) if w % 2 == 0 else gen_change_history(wr) if w % 4 == 1 else
+                   gen_queue_history(wr) if w % 8 == 3 else gen_bystander_history(wr))
             seed = ctx["seed"] * 100003 + w
             v6 = wr.random() < 0.35   # the host's only socket is an IPv6 socket
             steps, errors = exec_wire(ops, seed, v6)
